@@ -76,6 +76,7 @@ def warm(traced=TRACED, extra_traced=()):
             os=simos.SIM_OS,
             subprocess=sim_sub,
         )
+        _k.rebind_locks(m)
     import xonsh.procs.pipes as pp
     import xonsh.procs.proxies as pr
 
@@ -227,10 +228,10 @@ class RunCtx:
             {
                 "clause": "live.returns",
                 "msg": f"{verdict['kind']}: {verdict['msg']}; threads={verdict['threads']}; stack={verdict.get('stack')}; tty_err tail={e[-600:]!r}",
-                "sig": {"kind": verdict["kind"]},
+                "sig": dict(self.partial.get("abort_sig") or {}, kind=verdict["kind"]),
             }
         ]
-        res.update(self.partial)
+        res.update({k_: v_ for k_, v_ in self.partial.items() if k_ != "abort_sig"})
         res["thread_excs"] = self.thread_excs
         res["trace_tail"] = list(self.k.trace)[-60:]
         res["fds"] = fd_table()
